@@ -257,6 +257,7 @@ class Result:
         self.counters, self.maxes, self.samples = {}, {}, []
         self.viols = []          # (prop, key, replay, msg)
         self.dist = {}           # set name -> set of ints
+        self.names = {}          # set name -> set of strings
         self.inconclusive = []   # strings
         self.san = []            # (key, excerpt, logpath)
         self.procs = 0
@@ -333,6 +334,8 @@ def collect(outs, res):
                     res.maxes[f[1]] = max(res.maxes.get(f[1], 0), int(f[2]))
                 elif f[0] == 'S':
                     res.samples.append('\t'.join(f[1:]))
+                elif f[0] == 'N' and len(f) == 3:
+                    res.names.setdefault(f[1], set()).add(f[2])
                 elif f[0] == 'V' and len(f) >= 5:
                     res.viols.append((f[1], f[2], f[3], '\t'.join(f[4:])))
         for dp in glob.glob(out + '.dist.*'):
@@ -416,7 +419,8 @@ def verdict(prop, spec, res, tier, seed, t0, evpath, rdir):
             continue   # refined from the sanitizer logs below; kept as replay pointer
         k = '%s:%s' % (prop, key)
         if k in vio:
-            vio[k] = (vio[k][0], vio[k][1], vio[k][2] + 1)
+            old = vio[k]
+            vio[k] = (old[0] if old[0] != '-' else replay, old[1] if old[0] != '-' else msg, old[2] + 1)
         else:
             vio[k] = (replay, msg, 1)
     san_replays = [r for (p, key, r, m) in res.viols if key == 'san']
